@@ -17,10 +17,12 @@ the table extracted from lexer.go).
 namespace Vore.Lex
 open Vore
 
-def isAlnumB (c : UInt8) : Bool := (48 ≤ c && c ≤ 57) || (65 ≤ c && c ≤ 90) || (97 ≤ c && c ≤ 122)
-def isLetterB (c : UInt8) : Bool := (65 ≤ c && c ≤ 90) || (97 ≤ c && c ≤ 122)
-def isDigitB (c : UInt8) : Bool := 48 ≤ c && c ≤ 57
-def isSpaceB (c : UInt8) : Bool := (9 ≤ c && c ≤ 13) || c = 32
+-- 0x81 / 0x82 / 0x83: the class bytes of non-ASCII letters / digits / spaces (Vore/Model/Unicode.lean)
+def isAlnumB (c : UInt8) : Bool :=
+  (48 ≤ c && c ≤ 57) || (65 ≤ c && c ≤ 90) || (97 ≤ c && c ≤ 122) || c = 0x81 || c = 0x82
+def isLetterB (c : UInt8) : Bool := (65 ≤ c && c ≤ 90) || (97 ≤ c && c ≤ 122) || c = 0x81
+def isDigitB (c : UInt8) : Bool := (48 ≤ c && c ≤ 57) || c = 0x82
+def isSpaceB (c : UInt8) : Bool := (9 ≤ c && c ≤ 13) || c = 32 || c = 0x83
 
 inductive Item where
   | word (w : Bytes)                    -- letter (letter | digit)*
